@@ -16,7 +16,7 @@ import ast
 import sympy as sp
 
 from ..core import spelling
-from ..core.astutil import norm, ParentMap
+from ..core.astutil import where_unpack, norm, ParentMap
 from ..core.cfg import CFG
 from ..core.loader import walk_no_nested
 from ..core.pattern import Matcher
@@ -165,7 +165,8 @@ def _taint_and_mask(prog, rep, f, per_node):
         # inf mask stores
         masks = []
         for s in flat:
-            b = m.match(s, '$X[np.where($N == 0)] = np.inf') or m.match(s, '$X[$N == 0] = np.inf') or m.match(s, '$X[np.logical_not($N)] = np.inf')
+            b = m.match(s, '$X[np.where($N == 0)] = np.inf') or m.match(s, '$X[$N == 0] = np.inf') or m.match(s, '$X[np.logical_not($N)] = np.inf') \
+                or m.match(s, '$X[np.where($N == 0)[0]] = np.inf')       # (1-D vectors: positions of the zero entries)
             if b and isinstance(b['X'], ast.Name):
                 masks.append((s, b['X'].id, b['N']))
         # other inf stores
@@ -268,13 +269,13 @@ def _bu(prog, rep):
         ok = any(pol and norm(t) in ('%s >= 2' % k, '%s > 1' % k, '2 <= %s' % k, '1 < %s' % k) for t, pol, kind, o in g)
         rep.ob('K.degree-guard-dominates-division', f, s, ok, 'division by k^2 - k is not guarded by k >= 2 (0/0 for isolated and degree-1 nodes)')
         sd = [x for x in _stmts(f) if isinstance(x, ast.Assign) and norm(x.targets[0]) == norm(b['S'])]
-        vd = [x for x in _stmts(f) if isinstance(x, ast.Assign) and isinstance(x.targets[0], ast.Tuple) and len(x.targets[0].elts) == 1]
+        vd = [x for x in _stmts(f) if where_unpack(x) is not None]
         kd = [x for x in _stmts(f) if isinstance(x, ast.Assign) and norm(x.targets[0]) == k]
         G = f.params[0]
         ok2 = len(sd) == 1 and len(vd) == 1 and len(kd) == 1
         if ok2:
-            V = norm(vd[0].targets[0].elts[0])
-            ok2 = m.match(sd[0].value, '%s[np.ix_(%s, %s)]' % (G, V, V)) is not None and m.match(vd[0].value, 'np.where(%s[%s, :])' % (G, norm(b['U']))) is not None \
+            V = norm(where_unpack(vd[0])[0])
+            ok2 = m.match(sd[0].value, '%s[np.ix_(%s, %s)]' % (G, V, V)) is not None and m.match(where_unpack(vd[0])[1], '%s[%s, :]' % (G, norm(b['U']))) is not None \
                 and m.match(kd[0].value, 'len(%s)' % V) is not None
         rep.ob('G.bu-neighbourhood', f, sd[0] if sd else 'S = G[np.ix_(V, V)]', ok2, 'S must be the subgraph induced by the neighbours V of u, k = |V|')
         zi = [x for x in _stmts(f) if isinstance(x, ast.Assign) and norm(x.targets[0]) == 'C']
@@ -297,6 +298,29 @@ def _flatten_dot(t):
                 args.append(a)
         return args
     return t.replace(is_dot, lambda x: sp.Function('matprod')(*flat(x)))
+
+
+def _rowsum_of_hadamard(t):
+    """np.sum(X * Y.T, axis=1)[i] = sum_j X[i,j] Y[j,i] = (X Y)[i,i]: the row sums of an elementwise product with a transpose
+    are the diagonal of the matrix product (a common way to avoid forming the full product)"""
+    def hit(x):
+        if not (isinstance(x, sp.Function) and x.func.__name__ == 'np.sum' and len(x.args) == 2 and str(x.args[1]) == 'kw_axis(1)'):
+            return False
+        p = x.args[0]
+        if isinstance(p, sp.Mul) and len(p.args) == 2:
+            return any(isinstance(a, sp.Function) and a.func.__name__ == 'attr_T' for a in p.args)
+        if isinstance(p, sp.Pow) and p.args[1] == 2:
+            return False
+        return False
+
+    def rew(x):
+        a, b = x.args[0].args
+        if isinstance(b, sp.Function) and b.func.__name__ == 'attr_T':
+            X, Y = a, b.args[0]
+        else:
+            X, Y = b, a.args[0]
+        return sp.Function('np.diag')(sp.Function('matprod')(X, Y))
+    return t.replace(hit, rew)
 
 
 REFS = {
@@ -373,7 +397,7 @@ def _drop_axis0(t):
 def _norm_term(t):
     t = _drop_dtype(t)
     t = _drop_axis0(t)
-    t = _flatten_dot(t)
+    t = _flatten_dot(_rowsum_of_hadamard(t))
     return t
 
 
